@@ -336,7 +336,8 @@ TC2s ==
                           <<"C04:nowait-bit", (ok /\ Has(Head(w.out), "nowait") /\ Has(e, "nowait"))
                                                  => e.nowait = Head(w.out).nowait>>,
                           <<"C08:nothing-after", ~st.finalwire>>,
-                          <<"C01:env", e.type # "undecodable">> >>)
+                          \* every frame is exactly the encoding of a method / header / body (strict reading)
+                          <<"C01:env", e.type # "undecodable" /\ ~(Has(e, "strict") /\ ~e.strict)>> >>)
                /\ w' = IF ok THEN Wrote(w) ELSE w
                /\ st' = [IoStep(w, IF ok THEN Wrote(w) ELSE w)
                          EXCEPT !.lastwire = IF e.type = "method" THEN e.m ELSE e.type,
